@@ -3,7 +3,7 @@
    notification to the core; "every interleaving" = "every list". *)
 From Coq Require Import ZArith List Bool.
 From Common Require Import Res.
-From Core Require Import World Model Step Reach Rel_History Res_NoRaise Proofs_C02 Proofs_C03b Proofs_C02b Proofs_C10b Proofs_C02c.
+From Core Require Import World Model Step Reach Rel_History Res_NoRaise Proofs_C02 Proofs_C03b Proofs_C02b Proofs_C10b Proofs_C02c Proofs_C02d.
 Import ListNotations.
 Open Scope Z_scope.
 
@@ -50,9 +50,10 @@ Print Assumptions C02_schedule_no_raise.
    audio URI and state), from any state that is settled on a track (no notification pending,
    no switch or seek under way, audio agreeing), with consume off; and for play() from the
    stopped state (with a current track, and play(tlid) in a process that has not played yet).
-   For play() while playing/paused on another track, seek, and edits of the tracklist the clause
-   is decided by the settled-run agreement monitor and the correspondence only; seek from
-   stopped and replaying the current track under consume are recorded known findings. *)
+   Further below: seek within the track and edits that leave the playing entry in place.
+   For play() while playing/paused on another track the clause is decided by the settled-run
+   agreement monitor and the correspondence only; seek from stopped and replaying the current
+   track under consume are recorded known findings. *)
 Theorem C02_agreement_pause :
   forall shuf f c w, settled_on w c -> pstate w = Playing -> a_fresh w = false ->
   let w' := run_world shuf f w [Pause; Deliver; Deliver] in
@@ -93,6 +94,29 @@ Theorem C02_agreement_play_fresh :
   /\ a_uri w' = Some (trk x) /\ a_state w' = Playing /\ World.tl w' = World.tl w.
 Proof. exact play_fresh_agreement. Qed.
 Print Assumptions C02_agreement_play_fresh.
+
+(* seek within the current track, playing or paused *)
+Theorem C02_agreement_seek :
+  forall shuf f p c len w,
+  settled_on w c -> pstate w <> Stopped -> World.tl w <> [] ->
+  len_of w (trk c) = Some len -> 0 <= p -> p <= len ->
+  let w' := run_world shuf (S f) w [Seek p; Deliver] in
+  current w' = Some c /\ pstate w' = pstate w /\ pending w' = None /\ pending_position w' = None
+  /\ queue w' = [] /\ a_uri w' = a_uri w /\ a_state w' = a_state w /\ a_pos w' = p
+  /\ events w' = EvSeeked p :: events w /\ World.tl w' = World.tl w.
+Proof. exact seek_agreement. Qed.
+Print Assumptions C02_agreement_seek.
+
+(* edits that leave the playing entry in place: add / move / shuffle / remove with any arguments
+   (also the rejected ones) - if the current entry is still in the tracklist afterwards, the player
+   stays settled on it in the same state and the audio layer is untouched *)
+Theorem C02_agreement_edit :
+  forall shuf f o c w r w',
+  is_edit o = true -> settled_on w c -> run_op shuf f o w = (r, w') ->
+  mem_tlt c (World.tl w') = true ->
+  settled_on w' c /\ pstate w' = pstate w /\ a_uri w' = a_uri w /\ a_state w' = a_state w /\ a_pos w' = a_pos w.
+Proof. exact edit_agreement. Qed.
+Print Assumptions C02_agreement_edit.
 
 (* ---- A recorded known finding as a kernel-checked fact about the model: seek() from the
    stopped state with a current track leaves the core reporting `stopped` while the audio
